@@ -57,3 +57,66 @@ func ReadAll(path string, rbuf int, limit int) ([][]byte, error) {
 		}
 	}
 }
+
+// Header is an independent decoding of a v4 record header (marker, nil byte, three uvarints).
+type Header struct {
+	Len        int // bytes of the header
+	Nil        bool
+	USize      uint64
+	CSize      uint64
+	CRC        uint64
+	FieldStart [5]int // start index of marker, nil flag, usize, csize, crc
+}
+
+func uvarint(b []byte) (uint64, int) {
+	var x uint64
+	var s uint
+	for i, c := range b {
+		if i == 10 {
+			return 0, -1
+		}
+		if c < 0x80 {
+			return x | uint64(c)<<s, i + 1
+		}
+		x |= uint64(c&0x7f) << s
+		s += 7
+	}
+	return 0, -1
+}
+
+// ParseHeader decodes the record header at the start of b; ok=false when b does not start with one.
+func ParseHeader(b []byte) (h Header, ok bool) {
+	p := 0
+	m, n := uvarint(b)
+	if n <= 0 || m != 0x130691 {
+		return h, false
+	}
+	h.FieldStart[0] = 0
+	p += n
+	if p >= len(b) {
+		return h, false
+	}
+	h.FieldStart[1] = p
+	h.Nil = b[p] == 1
+	p++
+	h.FieldStart[2] = p
+	h.USize, n = uvarint(b[p:])
+	if n <= 0 {
+		return h, false
+	}
+	p += n
+	h.FieldStart[3] = p
+	h.CSize, n = uvarint(b[p:])
+	if n <= 0 {
+		return h, false
+	}
+	p += n
+	h.FieldStart[4] = p
+	h.CRC, n = uvarint(b[p:])
+	if n <= 0 {
+		return h, false
+	}
+	p += n
+	h.Len = p
+	return h, true
+}
